@@ -48,10 +48,11 @@ CHECKS['C02'] = {
              'the beam loop keeps pairwise distinct prefixes of real characters with non-zero probability (=> pairwise distinct transcripts), '
              'keeps Pb[p] <= CTCB(t, prefix p) and Pnb[p] <= CTCNB(t, prefix p) for the textbook CTC prefix-probability recurrences (=> the visual '
              'score never exceeds the CTC log-probability of its transcript, for every beam width and pre-selection), and '
-             'raises ValueError iff the normalisation deviation exceeds the tolerance.  top_k and the pre-selection are ASSUMED contracts.  '
+             'raises ValueError iff the normalisation deviation exceeds the tolerance; multisort.top_k itself is proved from models of ravel/argpartition/unravel_index '
+             '(its counting consequence is a Lean 4 theorem, lean/Pigeonhole.lean).  The pre-selection contract is ASSUMED.  '
              'BOUNDED, not proved: exact bag when unpruned, equality with a reference frame-synchronous k-best '
              'prefix beam search, on every matrix with quarter-probability rows (T<=3, 3 classes, k in {1,2,3,1e6}, default and non-pruning selector).'),
-    'note': ('Trusted: pyvc; assumed contracts of multisort.top_k and of the pre-selection callable; blank probability non-zero per frame; logaddexp is an '
+    'note': ('Trusted: pyvc; numpy models (ravel/argpartition/unravel_index); assumed contract of the pre-selection callable; blank probability non-zero per frame; logaddexp is an '
              'uninterpreted commutative monotone function; the recurrences CTCB/CTCNB equal the log-sum over all alignments (validated against enumeration on every run, not proved); executable specs (alpha recursion validated against enumeration of all alignments), float '
              'comparisons with 1e-6 tolerance; the numeric clauses are decided on the grid only.'),
 }
